@@ -136,6 +136,7 @@ def _solve_case(case):
             if p > min(nr, nq):
                 continue
             eta = [rpts, np.linspace(0, 2 * np.pi, nq, endpoint=False), np.linspace(0, 1, nz)]
+            rpts2 = breaks[0] + (breaks[-1] - breaks[0]) * (np.arange(nr) / (nr - 1.0)) ** 1.5          # as many nodes, elsewhere
 
             def fn(r):
                 comm = MPI.COMM_WORLD
@@ -159,7 +160,21 @@ def _solve_case(case):
                     phi.getAllData()[:] = np.nan
                     ps.solveEquationForFunction(phi, lambda x, k=k: x ** k)
                     fres.append(phi.getAllData().copy())
-                return sl, res, fres
+                # the same solver object on a second grid with as many radial nodes at OTHER positions (function right-hand side: the
+                # solution spline is evaluated wherever the grid of this call has its nodes)
+                fres2 = []
+                if p == 1:
+                    eta2 = [rpts2, eta[1], eta[2]]
+                    h2 = getLayoutHandler(comm, {'v_parallel_2d': [0, 2, 1], 'mode_solve': [1, 2, 0]}, [p], eta2)
+                    phi2 = Grid(eta2, [None] * 3, h2, 'mode_solve', comm, dtype=np.complex128)
+                    for k in range(min(d, 2) + 1):
+                        phi2.getAllData()[:] = np.nan
+                        ps.solveEquationForFunction(phi2, lambda x, k=k: x ** k)
+                        fres2.append(phi2.getAllData().copy())
+                    phi.getAllData()[:] = np.nan
+                    ps.solveEquationForFunction(phi, lambda x: x ** 0)          # and the first grid again
+                    fres2.append(phi.getAllData().copy())
+                return sl, res, fres, fres2
             try:
                 if p == 1:
                     out = [fn(0)]
@@ -171,12 +186,14 @@ def _solve_case(case):
             nrhs = len(out[0][1])
             got = [np.full((nq, nz, nr), np.nan, dtype=complex) for _ in range(nrhs)]
             gotf = [np.full((nq, nz, nr), np.nan, dtype=complex) for _ in range(len(out[0][2]))]
-            for sl, res, fres in out:
+            for sl, res, fres, _f2 in out:
                 for k in range(nrhs):
                     got[k][sl] = res[k]
                 for k in range(len(fres)):
                     gotf[k][sl] = fres[k]
+            gotf2 = out[0][3]
             rowsR = np.array([Sg.row(x, 0) for x in rpts])
+            rowsR2 = np.array([Sg.row(x, 0) for x in rpts2])
             # reference per mode
             solvers = {}
             for Imode, m in enumerate(mv):
@@ -236,6 +253,13 @@ def _solve_case(case):
                         tol = 1e-10 * max(1.0, cond * 1e-3) * max(1e-30, np.abs(want).max())
                         if not np.abs(g - want).max() <= tol:
                             V('function-path-differs-from-galerkin', '%s p=%d mode m=%g rhs r^%d: max error %.3g' % (tag, p, mv[Imode], k, np.abs(g - want).max()))
+                        if gotf2:
+                            evals += 1
+                            want2 = rowsR2 @ cc
+                            if not np.abs(gotf2[k][Imode, j, :] - want2).max() <= tol:
+                                V('function-path-differs-on-second-grid', '%s mode m=%g rhs r^%d: the same solver on a grid with other radial nodes is off by %.3g' % (tag, mv[Imode], k, np.abs(gotf2[k][Imode, j, :] - want2).max()))
+                            if k == 0 and not np.abs(gotf2[-1][Imode, j, :] - want).max() <= tol:
+                                V('function-path-differs-on-second-grid', '%s mode m=%g: back on the first grid after a call on another grid, off by %.3g' % (tag, mv[Imode], np.abs(gotf2[-1][Imode, j, :] - want).max()))
     return viols, evals, skipped, worst
 
 
